@@ -1,5 +1,7 @@
 #include "temporal_storage.hpp"
 
+#include <cstring>
+
 using namespace mustache;
 
 TemporalStorage::~TemporalStorage() {
@@ -19,8 +21,12 @@ void* TemporalStorage::assignComponent(World& world, Entity entity, ComponentId 
     command.type_info = &component_info;
     command.component_id = id;
     command.ptr = allocate(static_cast<uint32_t>(component_info.size), static_cast<uint32_t>(component_info.align));
-    if (!skip_constructor && component_info.functions.create) {
-        component_info.functions.create(command.ptr, entity, world);
+    if (!skip_constructor) {
+        if (component_info.functions.create) {
+            component_info.functions.create(command.ptr, entity, world);
+        } else if (!component_info.default_value.empty()) { // as Archetype::insert / externalMove initialise it
+            memcpy(command.ptr, component_info.default_value.data(), component_info.default_value.size());
+        }
     }
     return command.ptr;
 }
